@@ -567,3 +567,86 @@ pub fn release_worst_case<const BUF: usize, const BORROW: usize, const N: usize>
 proof!(8, fn conn_release_worst_case_1_1() { release_worst_case::<1, 1, 3>(); canaries(); });
 proof!(8, fn conn_release_worst_case_2_1() { release_worst_case::<2, 1, 4>(); canaries(); });
 proof!(8, fn conn_release_worst_case_1_2() { release_worst_case::<1, 2, 4>(); canaries(); });
+
+// ==========================================================================================
+// C02 / C14 — used-chunk list (what the sender gets back when a receiver vanishes)
+// ==========================================================================================
+
+use iceoryx2_cal::zero_copy_connection::used_chunk_list::FixedSizeUsedChunkList;
+
+/// insert / remove / remove_all history against a bit-mask model: an index is reported exactly
+/// while it is in use; remove_all yields every used index once and empties the list
+proof!(8, fn c02_used_chunk_list_history() {
+    const CAP: usize = 4;
+    let mut l = FixedSizeUsedChunkList::<CAP>::new();
+    let mut m: u8 = 0;
+    let mut drained = false;
+    let mut step = 0;
+    while step < 5 {
+        let op: u8 = kani::any();
+        let i: usize = kani::any();
+        kani::assume(i < CAP);
+        match op {
+            0 | 1 => {
+                let fresh = l.insert(i);
+                assert!(fresh == ((m >> i) & 1 == 0), "c02: used-chunk list reports the wrong 'newly inserted' state");
+                m |= 1 << i;
+            }
+            2 => {
+                let was = l.remove(i);
+                assert!(was == ((m >> i) & 1 == 1), "c02: used-chunk list removed an index that was not in use (or missed one)");
+                m &= !(1 << i);
+            }
+            _ => {
+                let mut got: u8 = 0;
+                l.remove_all(|k| {
+                    assert!(k < CAP && (got >> k) & 1 == 0, "c02: remove_all reported an index twice");
+                    got |= 1 << k;
+                });
+                assert!(got == m, "c02: remove_all differs from the indices in use");
+                if m != 0 {
+                    drained = true;
+                }
+                m = 0;
+            }
+        }
+        step += 1;
+    }
+    let mut got: u8 = 0;
+    l.remove_all(|k| got |= 1 << k);
+    assert!(got == m);
+    kani::cover!(drained, "a non-empty list was drained");
+    canaries();
+});
+
+/// C14: the used-chunk list is position independent (byte-copied to a fresh block mid-history)
+proof!(8, fn c14_used_chunk_list_relocation() {
+    type L = FixedSizeUsedChunkList<3>;
+    let layout = core::alloc::Layout::new::<L>();
+    unsafe {
+        let a = alloc::alloc::alloc(layout) as *mut L;
+        let b = alloc::alloc::alloc(layout) as *mut L;
+        a.write(L::new());
+        let i: usize = kani::any();
+        let j: usize = kani::any();
+        kani::assume(i < 3 && j < 3);
+        let before: bool = kani::any();
+        let mut m: u8 = 0;
+        if before {
+            assert!((*a).insert(i));
+            m |= 1 << i;
+        }
+        core::ptr::copy_nonoverlapping(a as *const u8, b as *mut u8, layout.size());
+        core::ptr::write_bytes(a as *mut u8, 0xFF, layout.size());
+        alloc::alloc::dealloc(a as *mut u8, layout);
+        let fresh = (*b).insert(j);
+        assert!(fresh == ((m >> j) & 1 == 0), "c14: relocated used-chunk list lost or invented an entry");
+        m |= 1 << j;
+        let mut got: u8 = 0;
+        (*b).remove_all(|k| got |= 1 << k);
+        assert!(got == m, "c14: relocated used-chunk list reports different indices");
+        alloc::alloc::dealloc(b as *mut u8, layout);
+        kani::cover!(before && i != j, "entry inserted before the move survives it");
+    }
+    canaries();
+});
